@@ -291,10 +291,17 @@ func (o *vectorOperator) join(
 
 		lowCardSeries := lowCardHashes[hash][0]
 		for i, output := range highCardSeries {
+			highCardSeriesID := highCardInputIndex[hash][i]
+			if o.matching.Card == parser.CardOneToOne && i > 0 {
+				// In a one-to-one match the result labels are the labels of the match group,
+				// so all series of the group share one output series. Two of them having
+				// a sample at the same step is reported as many-to-many matching.
+				highCardOutputIndex[highCardSeriesID] = highCardOutputIndex[highCardInputIndex[hash][0]]
+				continue
+			}
 			outputSeries := buildOutputSeries(uint64(len(outputIndex)), output, lowCardSeries, includeLabels)
 			outputIndex = append(outputIndex, outputSeries)
 
-			highCardSeriesID := highCardInputIndex[hash][i]
 			highCardOutputIndex[highCardSeriesID] = &outputSeries.ID
 
 			for _, lowCardSeriesID := range lowCardInputIndex[hash] {
